@@ -280,6 +280,13 @@ func GenHistory(r *Rng, cfg GenCfg) []Op {
 			ops = append(ops, op)
 		case x < 46:
 			ops = append(ops, Op{K: "del", Name: n, Key: g.key()})
+			if r.Chance(1, 12) {
+				// the application looks at a handle's JSON form (json.Marshal(coll)) between mutations and flushes
+				ops = append(ops, Op{K: "cjson", Name: n})
+			}
+			if cfg.Invalid && r.Chance(1, 10) {
+				ops = append(ops, Op{K: "setnil", Name: n, Key: g.key()})
+			}
 		case x < 54:
 			ops = append(ops, Op{K: "get", Name: n, Key: g.key()})
 		case x < 60:
